@@ -143,7 +143,9 @@ class Print_best:
         is_min = old.mode is None or old.mode == "min"
         has = [("loss" in v.min_metrics) for v in vs]
         anyone = exists(range(0, len(vs)), lambda i: has[i])
-        out = {"a-known-trial": exists(range(0, len(ks)), lambda i: ks[i] == result[0])}
+        if result is None:
+            return {"a-trial-is-reported-once-there-are-results": False}
+        out = {"a-trial-is-reported-once-there-are-results": True, "a-known-trial": exists(range(0, len(ks)), lambda i: ks[i] == result[0])}
         if anyone:
             out["best-trial-has-the-value"] = exists(range(0, len(ks)), lambda i: (ks[i] == result[0] and result[1] == (vs[i].min_metrics["loss"] if is_min else vs[i].max_metrics["loss"])) if has[i] else False)
             out["optimal"] = forall(range(0, len(ks)), lambda i: (result[1] <= vs[i].min_metrics["loss"] if is_min else result[1] >= vs[i].max_metrics["loss"]) if has[i] else True)
